@@ -581,6 +581,11 @@ class GenericPlainRegistry(Generic[QuantityT, UnitT], metaclass=RegistryMeta):
                     return any(lowered in name.lower() for name in units)
 
                 cache = self._cache
+                # parsed strings that contain the new spelling (with a prefix, as a
+                # plural, inside an expression) may read differently from now on
+                memo = cache.parse_unit
+                for string in [s for s in memo if lowered in s.lower()]:
+                    del memo[string]
                 for memo in (cache.dimensionality, cache.root_units):
                     for units in [units for units in memo if mentions(units)]:
                         del memo[units]
